@@ -11,7 +11,8 @@ SPECFUNS = {}       # name -> (params, expr source)  pure spec functions (inline
 INTERFACES = {}     # role -> InterfaceModel (opaque callables / duck-typed collaborators)
 AXIOMS = []         # (name, builder(engine) -> z3 formula)     trusted, listed in evidence
 LEMMAS = {}         # name -> Lemma
-GLOBAL_HINTS = {}   # "path:name" -> hint   (class of module-level singletons)
+GLOBAL_HINTS = {}
+WF_FIELDS = []      # attribute names holding references for which "no dangling reference" / "**kwargs dict is unshared" is assumed   # "path:name" -> hint   (class of module-level singletons)
 
 
 class Contract:
@@ -70,6 +71,10 @@ def contract(key, **kw):
 
 def fields(cls, **hints):
     FIELDS.setdefault(cls, {}).update(hints)
+
+
+def wf_fields(*names):
+    WF_FIELDS.extend(n for n in names if n not in WF_FIELDS)
 
 
 def specfun(name, params, expr):
